@@ -14,9 +14,10 @@ import FqModel.Cli
         a theorem statement evaluated on the implementation: kind `same` (combined short flags, `--k=v` vs `--k v`, permuted
         boolean flags): PA = PB;  kind `dd:<n>`: argvA = argvB ++ `--` :: post with |post| = n: PA.parsed = PB.parsed and
         PA.rest = PB.rest ++ post
-  `run argv=<argv> stdin=<fk> world=<hex>:<fk>:<pc>:<cc>:<json 0|1>:<fmt>,…` TAB `all=<O> singles=<O>;<O>…|.`
+  `run argv=<argv> stdin=<fk> world=<hex>:<fk>:<pc>:<cc>:<json 0|1>:<fmt>,…` TAB `all=<O> singles=<O>;<O>…|. [norepl=<O>]`
         <O> = `<exit>/<len>:<polyhash of stdout>/<errs|->`, errs = `io:<hexname>`, `dec:<hexname>`, `expr`, `fatal`, `other` joined by `,`
         singles = the same command with only the i-th marked input file kept
+        norepl  = (only when the command line has -i or --repl) the same command without it
 -/
 open FqModel FqModel.Cli FqModel.Proto
 
@@ -194,7 +195,12 @@ def exitReflects (c : Codes) (o : Obs) : Option String :=
     let want := finallyExit c io dec ex
     if o.exit == want then none else some s!"exit {o.exit} but the reported failure classes demand {want}"
 
-def runVerdict (h : Hdr) (argv : List Str) (marks : List Bool) (w : World) (all : Obs) (singles : List Obs) : String :=
+def dedup (l : List String) : List String := l.foldl (fun acc x => if acc.contains x then acc else acc ++ [x]) []
+
+def sameSet (a b : List String) : Bool := a.all b.contains && b.all a.contains
+
+def runVerdict (h : Hdr) (argv : List Str) (marks : List Bool) (w : World) (all : Obs) (singles : List Obs)
+    (norepl : Option Obs) : String :=
   match mainModel h.table h.codes h.otypes w argv with
   | .error (.mk why) => s!"BADOP unmodelled: {why}"
   | .ok p =>
@@ -215,6 +221,17 @@ def runVerdict (h : Hdr) (argv : List Str) (marks : List Bool) (w : World) (all 
         | none =>
           -- independence, RELATIVE to the single runs; applies when inputs are fed one by one (model) to a
           -- compiled program and the marked files are the input files
+          -- --repl with named input files reads the same inputs and runs the same program as the command line without
+          -- it (init.jq:246-258 vs :260-277): same set of reports, same status (only the order of reports and the
+          -- display differ).  Not comparable when a run halts with a fatal error.
+          let replBad : Option String := match norepl with
+            | some nr =>
+              if p.repl && !marked.isEmpty && !all.errs.contains "fatal" && !nr.errs.contains "fatal"
+                  && (all.exit != nr.exit || !sameSet (dedup all.errs) (dedup nr.errs)) then
+                some s!"with --repl: exit {all.exit} reports {showErrs all.errs}; without: exit {nr.exit} reports {showErrs nr.errs}"
+              else none
+            | none => none
+          if replBad.isSome then replBad else
           -- every named input is either processed (the program's output) or reported (stderr + status), never
           -- silently dropped (Props.C17.input_processed_or_reported); programs of class okq may print nothing
           let dropped := (marked.zip singles).find? (fun (_, s) => s.len == 0 && s.errs.isEmpty)
@@ -244,7 +261,12 @@ def stepRun (h : Hdr) (ws : List String) (obs : String) : String :=
       match kv ows "all", kv ows "singles" with
       | some a, some s =>
         match parseObs a, (if s == "." then some [] else (s.splitOn ";").mapM parseObs) with
-        | some all, some singles => runVerdict h argv marks { toks, stdin } all singles
+        | some all, some singles =>
+          match kv ows "norepl" with
+          | none => runVerdict h argv marks { toks, stdin } all singles none
+          | some nr => match parseObs nr with
+            | some o => runVerdict h argv marks { toks, stdin } all singles (some o)
+            | none => "BADOP obs norepl"
         | _, _ => "BADOP obs"
       | _, _ => "BADOP obs fields"
     | _, _, _ => "BADOP run fields"
